@@ -139,7 +139,8 @@ class Int(Op):
             far.append(self.hi + self.step * d.int(1, min(span * 3, 70000)))
         if self.rej_lo:
             far.append(self.lo - self.step * d.int(1, min(span * 3, 70000)))
-        return d.choice(far)
+        v = d.choice(far)
+        return v if self.classify(v) == "rej" else b[0]      # a hole outside lo..hi (value valid in another form)
 
     def render(self, v, syntax, hexa):
         s = lit(v, syntax, hexa)
